@@ -185,8 +185,36 @@ func c03Concurrent(r *Run) {
 		}
 		tot += n
 	}
-	r.Describe("%d goroutines on one %s message, programs %v", nG, c03Kinds[kind], progs)
+	// half of the runs: further goroutines copy the message while it is being settled (as a Pub/Sub does for a redelivery)
+	// and settle their copy: a copy is a message of its own, no call on it blocks or panics, never both channels closed
+	nCopiers := 0
+	var copyProgs [][]int
+	if r.T.Chance(1, 2) {
+		nCopiers = 1 + r.T.Int(2)
+		for c := 0; c < nCopiers; c++ {
+			copyProgs = append(copyProgs, []int{r.T.Int(2), r.T.Int(4), r.T.Int(4)})
+		}
+	}
+	r.Describe("%d goroutines on one %s message, programs %v; %d goroutines copy it meanwhile and run %v on their copy", nG, c03Kinds[kind], progs, nCopiers, copyProgs)
 	done := 0
+	var copyPanic any
+	var copies []*message.Message
+	for c := 0; c < nCopiers; c++ {
+		c := c
+		r.Go(fmt.Sprintf("copier%d", c), func() {
+			pv, pan := Call(func() {
+				cp := m.Copy()
+				copies = append(copies, cp)
+				for _, op := range copyProgs[c] {
+					c03Apply(cp, op)
+				}
+			})
+			if pan {
+				copyPanic = pv
+			}
+			done++
+		})
+	}
 	for g := 0; g < nG; g++ {
 		g := g
 		r.Go(fmt.Sprintf("client%d", g), func() {
@@ -206,9 +234,19 @@ func c03Concurrent(r *Run) {
 		})
 	}
 	r.Sim.AtEnd(func() {
-		if done != nG {
-			r.Fail("C03.R4", "an Ack/Nack call is still blocked at quiescence", "%d of %d clients finished", done, nG)
+		if done != nG+nCopiers {
+			r.Fail("C03.R4", "an Ack/Nack call is still blocked at quiescence", "%d of %d clients finished (%d of them work on a copy taken meanwhile)", done, nG+nCopiers, nCopiers)
 			return
+		}
+		if copyPanic != nil {
+			r.Fail("C03.R1", "Ack/Nack panicked under concurrency", "on a copy taken while the original was being settled: %v", copyPanic)
+			return
+		}
+		for _, cp := range copies {
+			if rawClosed(cp.Acked()) && rawClosed(cp.Nacked()) {
+				r.Fail("C03.R3", "both Acked() and Nacked() closed", "on a copy taken while the original was being settled")
+				return
+			}
 		}
 		for _, o := range ops {
 			if o.pan != nil {
